@@ -343,15 +343,15 @@ func genE2E(r *vhlib.Rng, kind string) *E2E {
 			mx = 400 + r.Intn(600)
 		}
 		gs, _ := genForest(r, 3+r.Intn(45), mx, false)
-		for len(gs) <= 100 {
+		for round := uint64(1); len(gs) <= 100; round++ { // top up with further traces (fresh trace and span ids)
 			more, _ := genForest(r, 5, 200, false)
 			for i := range more {
-				more[i].T += 1000
+				more[i].T += 1000 * round
 				more[i].Span.T = tidHex(more[i].T)
-				more[i].S += 0x4000000
+				more[i].S += 0x4000000 * round
 				more[i].Span.S = sidHex(more[i].S)
 				if more[i].P != 0 {
-					setParent(&more[i], more[i].P+0x4000000)
+					setParent(&more[i], more[i].P+0x4000000*round)
 				}
 			}
 			gs = append(gs, more...)
@@ -973,7 +973,7 @@ func streamE2E(cfg vhlib.Config, r *vhlib.Rng, sum *vhlib.Summary) {
 	plan := []struct {
 		kind string
 		n    int
-	}{{"main", 30}, {"malformed", 22}, {"dupid", 6}, {"big", 2}, {"huge", 2},
+	}{{"main", 40}, {"malformed", 30}, {"dupid", 8}, {"big", 2}, {"huge", 2},
 		{"deppage", 2}, {"multiroot", 2}, {"crossjoin", 2}, {"manytraces", 2}, {"numid", 2}} // the last five: known-defect classes, own generator streams
 	if cfg.Thorough() {
 		plan = []struct {
@@ -1045,7 +1045,7 @@ func streamE2E(cfg vhlib.Config, r *vhlib.Rng, sum *vhlib.Summary) {
 		}
 		d, n := coqScenario(i, e, obs[i])
 		defs.WriteString(d)
-		exprs = append(exprs, fmt.Sprintf("map (fun i => (%d + i)%%nat) (indices_false c%d 0)", 1000*i, i))
+		exprs = append(exprs, fmt.Sprintf("map (fun i => %d + N.of_nat i) (indices_false c%d 0)", 1000*i, i)) // list N: a unary nat of this size overflows the stack
 		nfile += n
 		size += len(d)
 		if size > 120000 {
